@@ -436,6 +436,41 @@ Proof.
   - destruct Hdoc.
 Qed.
 
+Lemma vr_pop_length : forall x (vr : vresources) d vr1, vr_pop x vr = Some (d, vr1) -> (length vr1 + 1 = length vr)%nat.
+Proof.
+  intros x vr. induction vr as [|[u du] t IH]; intros d vr1 Ev; cbn [vr_pop] in Ev; [discriminate|].
+  destruct (x =? u); [inversion Ev; subst; cbn [length]; lia|].
+  destruct (vr_pop x t) as [[d1 t1]|]; [|discriminate]. inversion Ev. subst. cbn [length].
+  specialize (IH _ _ eq_refl). lia.
+Qed.
+
+Lemma pop_all_length : forall S (vr : vresources) tot total vr',
+  pop_all S vr tot = Some (total, vr') -> (length vr' + length S = length vr)%nat.
+Proof.
+  induction S as [|x S IH]; intros vr tot total vr' Ep; cbn [pop_all] in Ep.
+  - inversion Ep. subst. cbn [length]. lia.
+  - destruct (vr_pop x vr) as [[d vr1]|] eqn:Ev; [|discriminate].
+    specialize (IH _ _ _ _ Ep). apply vr_pop_length in Ev. cbn [length]. lia.
+Qed.
+
+(* merging never increases the number of vertices *)
+Lemma apply_sc_length : forall todo f done (vr : vresources) subs vr1 cs1 subs1,
+  apply_sc f done todo vr subs = Ok (vr1, cs1, subs1) -> (length vr1 <= length vr)%nat.
+Proof.
+  induction todo as [|k rest IH]; intros f done vr subs vr1 cs1 subs1 H; cbn [apply_sc] in H.
+  - inversion H. subst. lia.
+  - destruct (subst_c f k) as [| vs | |]; try (apply (IH _ _ _ _ _ _ _ H)).
+    destruct (length vs <=? 1)%nat eqn:El; [apply (IH _ _ _ _ _ _ _ H)|].
+    destruct (pop_all (dedup vs) vr []) as [[total vr']|] eqn:Ep; [|discriminate].
+    specialize (IH _ _ _ _ _ _ _ H). rewrite app_length in IH. cbn [length] in IH.
+    apply pop_all_length in Ep.
+    assert (Hd : (1 <= length (dedup vs))%nat).
+    { destruct vs as [|a t]; [cbn in El; discriminate|].
+      assert (Hin : In a (dedup (a :: t))) by (apply dedup_In; left; reflexivity).
+      destruct (dedup (a :: t)); [destruct Hin | cbn [length]; lia]. }
+    lia.
+Qed.
+
 (* ---------------------------------------------------------------------------------------------- *)
 (* random placer                                                                                    *)
 (* ---------------------------------------------------------------------------------------------- *)
@@ -501,35 +536,7 @@ Proof.
     assert (Hbound : (length movable + length (raster m1) <= length oracle)%nat).
     { rewrite (raster_frame m m1 (inv_frame _ _ _ _ _ Hinv)).
       assert (length movable <= length (map fst vr1))%nat by (unfold movable; apply filter_len_le).
-      assert (Hk : (length (map fst vr1) <= length vr)%nat).
-      { destruct (pwf_nodup _ _ _ Hp). all: try (cbn; lia).
-        (* keys of the merged problem are images of keys of the original one: count via the order lemma *)
-        clear -Ea. unfold apply_same_chip in Ea. revert Ea. generalize (fun v : vertex => v) as f.
-        generalize (@nil pconstr) as done. generalize (@nil substitution) as subs0. revert vr.
-        generalize new as subs1. generalize cs1 as cs2. generalize vr1 as vr2.
-        induction cs as [|k rest IH]; intros vr2 cs2 subs1 vr subs0 done f H; cbn [apply_sc] in H.
-        - inversion H. subst. rewrite map_length. lia.
-        - destruct (subst_c f k) as [| vs | |]; try (apply (IH _ _ _ _ _ _ _ H)).
-          destruct (length vs <=? 1)%nat eqn:El; [apply (IH _ _ _ _ _ _ _ H)|].
-          destruct (pop_all (dedup vs) vr []) as [[total vr']|] eqn:Ep; [|discriminate].
-          specialize (IH _ _ _ _ _ _ _ H). rewrite app_length in IH. cbn [length] in IH.
-          assert (Hp : (length vr' + length (dedup vs) = length vr)%nat).
-          { clear -Ep. revert vr total vr' Ep. generalize (@nil (res * Z)) as tot.
-            induction (dedup vs) as [|x S IHS]; intros tot vr total vr' Ep; cbn [pop_all] in Ep.
-            - inversion Ep. subst. cbn [length]. lia.
-            - destruct (vr_pop x vr) as [[d vr1]|] eqn:Ev; [|discriminate].
-              specialize (IHS _ _ _ _ Ep). cbn [length].
-              assert (length vr1 + 1 = length vr)%nat.
-              { clear -Ev. revert d vr1 Ev. induction vr as [|[u du] t IHt]; intros d vr1 Ev; cbn [vr_pop] in Ev; [discriminate|].
-                destruct (x =? u); [inversion Ev; subst; cbn [length]; lia|].
-                destruct (vr_pop x t) as [[d1 t1]|]; [|discriminate]. inversion Ev. subst. cbn [length].
-                specialize (IHt _ _ eq_refl). lia. }
-              lia. }
-          assert (Hd : (1 <= length (dedup vs))%nat).
-          { destruct vs as [|a t]; [cbn in El; discriminate|].
-            assert (In a (dedup (a :: t))) by (apply dedup_In; left; reflexivity).
-            destruct (dedup (a :: t)); [destruct H0 | cbn [length]; lia]. }
-          lia. }
+      pose proof (apply_sc_length _ _ _ _ _ _ _ _ Ea) as Hk.
       rewrite map_length in H. lia. }
     apply bind_doc.
     { apply rand_loop_doc; [| |exact Hbound].
